@@ -1,0 +1,18 @@
+//go:build verif
+
+package deployment
+
+import (
+	clientset "k8s.io/client-go/kubernetes"
+	appslisters "k8s.io/client-go/listers/apps/v1"
+	"k8s.io/client-go/tools/record"
+	"sigs.k8s.io/controller-runtime/pkg/client"
+)
+
+// NewVerifReconciler builds the advanced deployment reconciler exactly as newReconciler does,
+// with the clientset, listers and recorder supplied by the caller instead of a manager.
+func NewVerifReconciler(c client.Client, kube clientset.Interface, dLister appslisters.DeploymentLister,
+	rsLister appslisters.ReplicaSetLister, rec record.EventRecorder) *ReconcileDeployment {
+	factory := &controllerFactory{client: kube, eventRecorder: rec, dLister: dLister, rsLister: rsLister}
+	return &ReconcileDeployment{Client: c, controllerFactory: factory}
+}
